@@ -112,6 +112,7 @@ Definition pcop (o : cop NM) : cop NM :=
   | KSelector _ => KSelector NM
   | KSetDelay _ d => KSetDelay NM d
   | KClear _ => KClear NM
+  | KRestore _ => KRestore NM
   end.
 Definition raises (o : cout NM) : Prop := match o with COErr _ _ => True | _ => False end.
 
@@ -534,7 +535,7 @@ Theorem connection_step_sample c k s o k' s' out : conn_wf k -> bsyn NM B (conn_
 Proof.
   intros Hwf Hbs Hok. pose proof Hbs as (Hs & Hc & Hn).
   destruct (connection_selector_sample k Hwf) as [Esel Hsel].
-  destruct o as [xsh xs inj| | | |d|]; cbn [cstep pcop cop_ok] in *.
+  destruct o as [xsh xs inj| | | |d| |]; cbn [cstep pcop cop_ok] in *.
   - destruct (conn_forward NM k c s xsh xs inj) as [s1 [vw|e]] eqn:Ef; intros H Hnr; injection H as <- <- <-;
       [|exfalso; apply Hnr; exact I].
     destruct Hok as [Hx Hi]. destruct (conn_forward_sample k c s xsh xs inj s1 vw Hwf Hbs Hx Hi Ef) as [E Hbs1].
@@ -560,6 +561,7 @@ Proof.
     split; [reflexivity|split; [exact (E3 Hwf)|split; [exact E2|exact Hbs]]].
   - intros H Hnr. injection H as <- <- <-. destruct (clear_sample NM B _ b c s Hbs) as [E Hbs']. rewrite E.
     (split; [try reflexivity|split; [try assumption|split; [try reflexivity|try assumption]]]).
+  - intros H Hnr. injection H as <- <- <-. (split; [reflexivity|split; [assumption|split; [reflexivity|assumption]]]).
 Qed.
 
 (* EVERY OPERATION SEQUENCE that does not raise on the batch *)
